@@ -141,6 +141,11 @@ pub fn check_consistency(n: &Node, table: &BlockTable, max_id: u64) -> Vec<(Stri
     // (ii) per-block flag
     let path_set: BTreeSet<SaitoHash> = path.iter().map(|b| b.hash).collect();
     for (h, b) in n.chain.blocks.iter() {
+        // like the index, judged only above the purge horizon: a purged ancestor that is delivered
+        // again is stored off-chain, in agreement with the index, which reports nothing at its height
+        if b.id <= horizon {
+            continue;
+        }
         let want = path_set.contains(h);
         if b.in_longest_chain != want {
             v.push((
